@@ -8,6 +8,11 @@ pub const PROPS: &[&str] = &["C03"];
 
 pub fn eval(sc: &Scenario) -> CaseResult {
     let (out, mut r) = eval_core(sc, PROPS, false);
+    if r.violation.is_none() {
+        // spectator sessions hand out statuses and values too (Confirmed = the real input, Disconnected = default
+        // input of a player dropped at an earlier frame)
+        r.violation = super::posthoc::spectator_replay(sc, &out).map(|(s, m)| (format!("C03.spectator|{s}"), m));
+    }
     let corrected: u64 = out.peers.iter().map(|p| p.predicted_corrected).sum();
     let sticky: u64 = out.peers.iter().map(|p| p.sticky2).sum();
     r.nontrivial = corrected > 0 && sticky > 0;
